@@ -307,10 +307,38 @@ func checkC19(c *Ctx) {
 
 		// ---- R-static-headers
 		hdrOK, hdrWhy := staticHeadersApplied(c, b)
+		facHdr, facHook := false, false
+		if b.factory != nil {
+			// the factory may hand back a request that is already complete: headers added and the before-request
+			// function applied on every path to its successful return
+			facHdr, facHook = factoryCompletes(c, b, appliers, hookType)
+			if !hdrOK && facHdr {
+				hdrOK, hdrWhy = true, "added by the request factory "+fname(b.factory)+" on every path to its successful return"
+			}
+		}
 		c.R.Check(hdrOK, "R-static-headers", bn, c.Pos(b.newReq.Pos()), hdrWhy, sprintf("%s: %s", bn, hdrWhy))
 
 		// ---- R-before-request
-		checkHook(c, b, appliers, hookType)
+		if facHook {
+			// applied by the factory: the caller must not apply it again
+			again := false
+			reqVals := derivedReq(b.req)
+			ir.EachInstr(b.fn, func(_ *ssa.BasicBlock, _ int, in ssa.Instruction) {
+				if call, ok := in.(*ssa.Call); ok {
+					for _, a := range call.Call.Args {
+						if reqVals[a] {
+							if sc := ir.StaticCallee(call); sc != nil && appliers[sc] {
+								again = true
+							}
+						}
+					}
+				}
+			})
+			c.R.Check(!again, "R-before-request", bn, c.Pos(b.newReq.Pos()), "applied exactly once, by the request factory "+fname(b.factory),
+				sprintf("%s applies the before-request function to a request that its factory %s has already passed through it", bn, fname(b.factory)))
+		} else {
+			checkHook(c, b, appliers, hookType)
+		}
 
 		// ---- path / session header facts
 		if appliesPath(c, b) {
@@ -1201,6 +1229,9 @@ func appliesPathIn(c *Ctx, fn *ssa.Function, req ssa.Value, depth int) bool {
 }
 
 func setsHeaderConst(c *Ctx, b *builder, key string) bool {
+	if b.factory != nil && setsHeaderConstIn(c, b.factory, b.facReq, key, 0) {
+		return true // set by the request factory
+	}
 	return setsHeaderConstIn(c, b.fn, b.req, key, 0)
 }
 
@@ -1668,4 +1699,85 @@ func c19HandlerFactory(c *Ctx) {
 	if n < 3 || nFactory < 1 {
 		c.R.Break("R-handler-factory: %d stores into handler members, %d of them factory calls (expected at least 3 and 2)", n, nFactory)
 	}
+}
+
+
+// factoryCompletes: inside the request factory of b, on every path from the creation of the request to a return that
+// hands the request back, (hdr) the static-header loop and (hook) exactly one application of the before-request
+// function have been passed.
+func factoryCompletes(c *Ctx, b *builder, appliers map[*ssa.Function]bool, hookType *types.Named) (hdr, hook bool) {
+	f := b.factory
+	reqVals := derivedReq(b.facReq)
+	var success []*ssa.Return
+	ir.EachInstr(f, func(blk *ssa.BasicBlock, _ int, in ssa.Instruction) {
+		ret, ok := in.(*ssa.Return)
+		if !ok || blk == f.Recover {
+			return
+		}
+		for _, rv := range ir.Results(ret) {
+			if reqVals[rv] {
+				success = append(success, ret)
+			}
+		}
+	})
+	if len(success) == 0 {
+		return false, false
+	}
+	sites, _ := headerLoopSites(c, f, b.facReq, 0)
+	hdr = len(sites) > 0
+	for _, r := range success {
+		dom := false
+		for _, s := range sites {
+			if flow.Dominates(s, r) {
+				dom = true
+			}
+		}
+		if !dom {
+			hdr = false
+		}
+	}
+	var hooks []*ssa.Call
+	ir.EachInstr(f, func(_ *ssa.BasicBlock, _ int, in ssa.Instruction) {
+		call, ok := in.(*ssa.Call)
+		if !ok {
+			return
+		}
+		uses := false
+		for _, a := range call.Call.Args {
+			if reqVals[a] {
+				uses = true
+			}
+		}
+		if !uses {
+			return
+		}
+		if sc := ir.StaticCallee(call); sc != nil && appliers[sc] {
+			hooks = append(hooks, call)
+		} else if !call.Call.IsInvoke() && types.Identical(call.Call.Value.Type(), hookType) {
+			hooks = append(hooks, call)
+		}
+	})
+	hook = len(hooks) > 0
+	for i := range hooks {
+		if flow.InCycle(hooks[i].Block()) {
+			hook = false
+		}
+		for j := range hooks {
+			if i != j && flow.Reaches(hooks[i], hooks[j]) {
+				hook = false
+			}
+		}
+	}
+	isHook := map[ssa.Instruction]bool{}
+	for _, h := range hooks {
+		isHook[h] = true
+	}
+	for _, r := range success {
+		// a success return reachable from the creation without passing a hook (other than over the "no client" edge)?
+		stop := map[ssa.Instruction]bool{r: true}
+		if bypass := pathToDispatchAvoiding(f, b.facNew, isHook, stop); bypass != nil {
+			hook = false
+		}
+	}
+	return hdr, hook
 }
